@@ -540,6 +540,12 @@ impl Db {
         Ok(())
     }
 
+    /// Take over the engine handle of another wrapper (used after a simulated crash + open).
+    pub fn replace_handle(&mut self, other: &mut Db) {
+        self.db = other.db.take();
+        self.poisoned = false;
+    }
+
     pub fn file_len(&self) -> u64 {
         std::fs::metadata(Self::path_in(&self.dir)).map(|m| m.len()).unwrap_or(0)
     }
